@@ -500,6 +500,11 @@ def sweep_structure(ctx, rule):
             break
         cond, a_, b_ = c.args
         empty = False
+        # polarity: `t = inf if xs == [] else mid`, `t = mid if xs != [] else inf`, `t = inf; if xs != []: t = mid` are one value
+        if cond.op == "not":
+            cond, a_, b_ = cond.args[0], b_, a_
+        if cond.op == "cmp" and cond.args[0] == "!=":
+            cond, a_, b_ = mk("cmp", "==", cond.args[1], cond.args[2]), b_, a_
         if cond.op == "cmp" and cond.args[0] == "==":
             for lst, var in ((cond.args[2], cond.args[1]), (cond.args[1], cond.args[2])):
                 empty = empty or (lst.op == "list" and not lst.args[0] and var.op == "loopvar" and _init(var).op == "list"
